@@ -10,8 +10,10 @@ VARIABLES Wd,     \* the current projected world
 Rec == ndJsonDeserialize(IOEnv.TRACE)
 
 \* Layer R: the sector lifecycle model (Sectors.tla), instantiated with the same policy numbers
+CONSTANTS MaxPC, ChalDelay
 LC == INSTANCE Sectors WITH D <- D, W <- W_, PartSize <- PartSize, FaultMaxAge <- FaultMaxAge,
                            FaultCutoff <- FaultCutoff, MinLife <- MinLife, MaxLife <- MaxLife, AddrSectorsMax <- AddrSectorsMax, AddrPartsMax <- AddrPartsMax,
+                           MaxPC <- MaxPC, ChalDelay <- ChalDelay,
                            SM <- Wd, epoch <- l, last <- G
 
 
@@ -34,12 +36,14 @@ ProjSM(M) ==
                  fexp |-> IF st \in {"faulty", "recovering"} THEN DueOf(pt, n) ELSE 0]
   IN  [sec |-> [n \in DOMAIN place |-> rec(n)],
        posted |-> [d \in 0..(D - 1) |-> SeqSet(M.dls[d + 1].posted)],
-       alloc |-> SeqSet(M.alloc), off |-> M.pps, cron |-> M.cronActive]
+       alloc |-> SeqSet(M.alloc), off |-> M.pps, cron |-> M.cronActive,
+       pre |-> [n \in {M.pre[i].n : i \in Idx(M.pre)} |->
+                  LET i == CHOOSE j \in Idx(M.pre) : M.pre[j].n = n IN [exp |-> M.pre[i].exp, at |-> M.pre[i].at]]]
 AbsReal(M) == LET sm == ProjSM(M) tb == Tb(M) IN
   [sec |-> [n \in DOMAIN sm.sec |-> [st |-> sm.sec[n].st, d |-> sm.sec[n].d, p |-> sm.sec[n].p, exp |-> sm.sec[n].exp,
                                       due |-> IF sm.sec[n].st = "term" THEN 0
                                               ELSE DueOf(PartAt(M, <<sm.sec[n].d + 1, sm.sec[n].p + 1>>), n)]],
-   posted |-> sm.posted, alloc |-> sm.alloc]
+   posted |-> sm.posted, alloc |-> sm.alloc, pre |-> sm.pre]
 
 \* a failed UpdatePledgeTotal whose requested delta would have kept the ADJUSTED total non-negative
 \* is the known consequence of finding F1
@@ -58,7 +62,9 @@ ModelCall(M, e, ep) ==
     [] e.ev = "DeclareRecovered" -> LC!DeclareRecovered(sm, c, ToSets(e.decls), ep)
     [] e.ev = "Terminate" -> LC!Terminate(sm, c, ToSets(e.decls), ep)
     [] e.ev = "Extend" -> LC!Extend(sm, c, ToSetsX(e.decls), ep)
-Modelled == {"CommitNI", "PoSt", "DeclareFaults", "DeclareRecovered", "Terminate", "Extend"}
+    [] e.ev = "PreCommit" -> LC!PreCommit(sm, c, [i \in Idx(e.sectors) |-> e.sectors[i].n], [i \in Idx(e.sectors) |-> e.sectors[i].exp], ep)
+    [] e.ev = "ProveCommit" -> LC!ProveCommit(sm, c, e.ns, e.requireAll, ep)
+Modelled == {"CommitNI", "PoSt", "DeclareFaults", "DeclareRecovered", "Terminate", "Extend", "PreCommit", "ProveCommit"}
 \* Layer R for one event: the modelled calls must be explained by the lifecycle model; ticks must be explained
 \* for every miner; everything else is outside the lifecycle model (money, control, pre-commit path)
 ExplainedR(pre, e) ==
@@ -69,7 +75,7 @@ ExplainedR(pre, e) ==
   \* (exit code 19 = insufficient funds: the miner cannot afford the pledge or a fee; no money in the lifecycle model)
   ELSE IF e.ev \in Modelled /\ ~e.ok /\ e.code = 19 THEN AbsReal(MinerByName(e.st, e.m)) = AbsReal(MinerByName(pre, e.m))
   \* while a consensus fault is active the miner may neither commit sectors nor declare recoveries
-  ELSE IF e.ev \in {"CommitNI", "DeclareRecovered"} /\ pre.epoch <= MinerByName(pre, e.m).cfElapsed THEN
+  ELSE IF e.ev \in {"CommitNI", "DeclareRecovered", "PreCommit"} /\ pre.epoch <= MinerByName(pre, e.m).cfElapsed THEN
        ~e.ok /\ AbsReal(MinerByName(e.st, e.m)) = AbsReal(MinerByName(pre, e.m))
   \* an extension that declares claims to maintain or drop is decided by the registry as well (Claims.tla, C10)
   ELSE IF e.ev = "Extend" /\ \E i \in Idx(e.decls) : "claims" \in DOMAIN e.decls[i] /\ Len(e.decls[i].claims) > 0 THEN TRUE
